@@ -25,6 +25,7 @@ type funcRun struct {
 	loopEnv  map[int]map[string]nameBinding
 	writes   map[int]*loopWrites
 	aborted  string
+	backedges map[int]int
 	fvAddr   map[string]Val // free variables of a closure (addresses of the captured variables)
 }
 
@@ -877,6 +878,15 @@ func (ex *Exec) loopCut(st *State, li *loopInfo, pred *ssa.BasicBlock) bool {
 		return env
 	}
 	if back {
+		// vacuity guard: some path around the loop must be feasible under the invariant
+		if run.backedges == nil {
+			run.backedges = map[int]int{}
+		}
+		if run.backedges[b.Index] < 12 {
+			run.backedges[b.Index]++
+			o := ex.newObl(st, "vacuity", fmt.Sprintf("loop%d_body_reachable", li.ordinal), "false", "some iteration of the loop is feasible under its invariant", con.Props)
+			o.Canary = true
+		}
 		names := run.loopEnv[b.Index]
 		env := mkEnv(inc, names)
 		for _, cl := range invs {
